@@ -578,4 +578,293 @@ theorem parse_renders {e : Expr} {lvl : Nat} {s : List Char} (h : Renders e lvl 
   rw [parse_eq, this, ← shape_reduce alg env hsh]
   cases fl <;> simp
 
+
+/-- a way of relating two partial computations that is compatible with sequencing. Two instances:
+    `Lift.both` (if both succeed the results are related) and `Lift.fwd` (if the first succeeds so
+    does the second, with a related result). -/
+structure Lift where
+  rel : ∀ {A B : Type}, (A → B → Prop) → Option A → Option B → Prop
+  pure : ∀ {A B : Type} {R : A → B → Prop} {a : A} {b : B}, R a b → rel R (some a) (some b)
+  none : ∀ {A B : Type} {R : A → B → Prop}, rel R (none : Option A) (none : Option B)
+  bind : ∀ {A B A' B' : Type} {R : A → B → Prop} {S : A' → B' → Prop} {o1 : Option A} {o2 : Option B}
+    {f : A → Option A'} {g : B → Option B'},
+    rel R o1 o2 → (∀ a b, R a b → rel S (f a) (g b)) → rel S (o1.bind f) (o2.bind g)
+
+def Lift.both : Lift where
+  rel R o1 o2 := ∀ a b, o1 = some a → o2 = some b → R a b
+  pure h := by intro a b h1 h2; cases h1; cases h2; exact h
+  none := by intro _ _ _ a b h; cases h
+  bind := by
+    intro A B A' B' R S o1 o2 f g h hf a' b' h1 h2
+    cases o1 with
+    | none => simp at h1
+    | some a =>
+      cases o2 with
+      | none => simp at h2
+      | some b => exact hf a b (h a b rfl rfl) a' b' h1 h2
+
+def Lift.fwd : Lift where
+  rel R o1 o2 := ∀ a, o1 = some a → ∃ b, o2 = some b ∧ R a b
+  pure h := by intro a h1; cases h1; exact ⟨_, rfl, h⟩
+  none := by intro _ _ _ a h; cases h
+  bind := by
+    intro A B A' B' R S o1 o2 f g h hf a' h1
+    cases o1 with
+    | none => simp at h1
+    | some a =>
+      obtain ⟨b, hb, hr⟩ := h a rfl
+      subst hb
+      exact hf a b hr a' h1
+
+variable {V W : Type} (L : Lift) (R : V → W → Prop) (alg1 : Alg V) (alg2 : Alg W)
+
+theorem Lift.map {A B A' B' : Type} {R : A → B → Prop} {S : A' → B' → Prop} {o1 : Option A} {o2 : Option B}
+    {f : A → A'} {g : B → B'} (h : L.rel R o1 o2) (hf : ∀ a b, R a b → S (f a) (g b)) :
+    L.rel S (o1.map f) (o2.map g) := by
+  have := L.bind (S := S) (f := fun a => some (f a)) (g := fun b => some (g b)) h
+    (fun a b hab => L.pure (hf a b hab))
+  have e1 : o1.map f = o1.bind fun a => some (f a) := by cases o1 <;> rfl
+  have e2 : o2.map g = o2.bind fun b => some (g b) := by cases o2 <;> rfl
+  rw [e1, e2]; exact this
+
+structure AlgRel : Prop where
+  mul : ∀ a a' b b', R a b → R a' b' → L.rel R (alg1.mul a a') (alg2.mul b b')
+  div : ∀ a a' b b', R a b → R a' b' → L.rel R (alg1.div a a') (alg2.div b b')
+  pow : ∀ a a' b b', R a b → R a' b' → L.rel R (alg1.pow a a') (alg2.pow b b')
+  num : ∀ m e, L.rel R (alg1.num m e) (alg2.num m e)
+
+inductive ItemRel : Item V → Item W → Prop
+  | val {a b} : R a b → ItemRel (.val a) (.val b)
+  | op (o : Op) : ItemRel (.op o) (.op o)
+
+def OptR : Option V → Option W → Prop
+  | none, none => True
+  | some a, some b => R a b
+  | _, _ => False
+
+variable {L R alg1 alg2}
+
+theorem optR_inv {acc1 : Option V} {acc2 : Option W} (h : OptR R acc1 acc2) :
+    (acc1 = none ∧ acc2 = none) ∨ ∃ a b, acc1 = some a ∧ acc2 = some b ∧ R a b := by
+  cases acc1 <;> cases acc2 <;> simp_all [OptR]
+
+theorem powGo_rel (h : AlgRel L R alg1 alg2) (acc1 : Option V) (l1 : List (Item V)) :
+    ∀ (acc2 : Option W) (l2 : List (Item W)), OptR R acc1 acc2 → List.Forall₂ (ItemRel R) l1 l2 →
+      L.rel (List.Forall₂ (ItemRel R)) (powGo alg1 acc1 l1) (powGo alg2 acc2 l2) := by
+  fun_induction powGo alg1 acc1 l1 with
+  | case1 =>
+    intro acc2 l2 ha hl
+    cases hl; cases acc2 <;> simp only [OptR] at ha
+    simp only [powGo]; exact L.pure .nil
+  | case2 a =>
+    intro acc2 l2 ha hl
+    cases hl; cases acc2 <;> simp only [OptR] at ha
+    simp only [powGo]; exact L.pure (.cons (.val ha) .nil)
+  | case3 b rest ih =>
+    intro acc2 l2 ha hl
+    cases acc2 <;> simp only [OptR] at ha
+    cases hl with
+    | cons hxy hl =>
+      cases hxy with
+      | val hab => simp only [powGo]; exact ih _ _ hab hl
+  | case4 rest =>
+    intro acc2 l2 ha hl
+    cases acc2 <;> simp only [OptR] at ha
+    cases hl with
+    | cons hxy hl =>
+      cases hxy
+      simp only [powGo, if_true]; exact L.none
+  | case5 o rest ho ih =>
+    intro acc2 l2 ha hl
+    cases acc2 <;> simp only [OptR] at ha
+    cases hl with
+    | cons hxy hl =>
+      cases hxy
+      simp only [powGo, if_neg ho]
+      exact L.map (ih _ _ trivial hl) (fun _ _ h => .cons (.op o) h)
+  | case6 a b rest ih =>
+    intro acc2 l2 ha hl
+    cases acc2 <;> simp only [OptR] at ha
+    cases hl with
+    | cons hxy hl =>
+      cases hxy with
+      | val hab =>
+        simp only [powGo]
+        exact L.map (ih _ _ hab hl) (fun _ _ h => .cons (.val ha) h)
+  | case7 a b rest ih =>
+    intro acc2 l2 ha hl
+    cases acc2 <;> simp only [OptR] at ha
+    cases hl with
+    | cons hxy hl =>
+      cases hxy
+      cases hl with
+      | cons hxy' hl' =>
+        cases hxy' with
+        | val hab' =>
+          simp only [powGo]
+          exact L.bind (h.pow _ _ _ _ ha hab') (fun v w hvw => ih v _ _ hvw hl')
+  | case8 a tail hne =>
+    intro acc2 l2 ha hl
+    cases acc2 <;> simp only [OptR] at ha
+    cases hl with
+    | cons hxy hl =>
+      cases hxy
+      cases hl with
+      | nil => simp only [powGo]; exact L.none
+      | cons hxy' hl' =>
+        cases hxy' with
+        | val hab' => exact absurd rfl (fun e => hne _ _ e)
+        | op o' => simp only [powGo]; exact L.none
+  | case9 a o rest hne ho ih =>
+    intro acc2 l2 ha hl
+    cases acc2 <;> simp only [OptR] at ha
+    cases hl with
+    | cons hxy hl =>
+      cases hxy
+      cases o with
+      | pow => exact absurd rfl ho
+      | mul =>
+        simp only [powGo]
+        exact L.map (ih _ _ trivial hl) (fun _ _ h => .cons (.val ha) (.cons (.op _) h))
+      | div =>
+        simp only [powGo]
+        exact L.map (ih _ _ trivial hl) (fun _ _ h => .cons (.val ha) (.cons (.op _) h))
+
+
+
+theorem mulDiv_none {U : Type} (alg : Alg U) (x : U) (t : List (Item U)) (h1 : t ≠ [])
+    (h2 : ∀ b rest, t ≠ .op .mul :: .val b :: rest) (h3 : ∀ b rest, t ≠ .op .div :: .val b :: rest) :
+    mulDiv alg x t = none := by
+  rw [mulDiv.eq_def]
+  split
+  · exact absurd rfl h1
+  · exact absurd rfl (h2 _ _)
+  · exact absurd rfl (h3 _ _)
+  · rfl
+
+theorem mulDiv_rel (h : AlgRel L R alg1 alg2) (a1 : V) (l1 : List (Item V)) :
+    ∀ (a2 : W) (l2 : List (Item W)), R a1 a2 → List.Forall₂ (ItemRel R) l1 l2 →
+      L.rel R (mulDiv alg1 a1 l1) (mulDiv alg2 a2 l2) := by
+  fun_induction mulDiv alg1 a1 l1 with
+  | case1 acc =>
+    intro a2 l2 ha hl; cases hl; simp only [mulDiv]; exact L.pure ha
+  | case2 acc b rest ih =>
+    intro a2 l2 ha hl
+    cases hl with
+    | cons hxy hl =>
+      cases hxy
+      cases hl with
+      | cons hxy' hl' =>
+        cases hxy' with
+        | val hab =>
+          simp only [mulDiv]
+          exact L.bind (h.mul _ _ _ _ ha hab) (fun v w hvw => ih v _ _ hvw hl')
+  | case3 acc b rest ih =>
+    intro a2 l2 ha hl
+    cases hl with
+    | cons hxy hl =>
+      cases hxy
+      cases hl with
+      | cons hxy' hl' =>
+        cases hxy' with
+        | val hab =>
+          simp only [mulDiv]
+          exact L.bind (h.div _ _ _ _ ha hab) (fun v w hvw => ih v _ _ hvw hl')
+  | case4 acc l hn1 hn2 hn3 =>
+    intro a2 l2 ha hl
+    rw [mulDiv_none alg2 a2 l2]
+    · exact L.none
+    · rintro rfl; cases hl; exact hn1 rfl
+    · rintro b rest rfl
+      cases hl with
+      | cons hxy hl => cases hxy; cases hl with
+        | cons hxy' hl' => cases hxy'; exact hn2 _ _ rfl
+    · rintro b rest rfl
+      cases hl with
+      | cons hxy hl => cases hxy; cases hl with
+        | cons hxy' hl' => cases hxy'; exact hn3 _ _ rfl
+
+theorem reduce_rel (h : AlgRel L R alg1 alg2) {l1 : List (Item V)} {l2 : List (Item W)}
+    (hl : List.Forall₂ (ItemRel R) l1 l2) : L.rel R (reduce alg1 l1) (reduce alg2 l2) := by
+  unfold reduce
+  refine L.bind (powGo_rel h none l1 none l2 trivial hl) ?_
+  intro m1 m2 hm
+  cases hm with
+  | nil => simp only [mulDivPass]; exact L.none
+  | cons hxy hm =>
+    cases hxy with
+    | val hab => simp only [mulDivPass]; exact mulDiv_rel h _ _ _ _ hab hm
+    | op o => simp only [mulDivPass]; exact L.none
+
+theorem scan_rel (h : AlgRel L R alg1 alg2) {env1 : List Char → Option V} {env2 : List Char → Option W}
+    (henv : ∀ n, L.rel R (env1 n) (env2 n)) (f : Nat) (cs : List Char) :
+    L.rel (List.Forall₂ (ItemRel R)) (scan alg1 env1 f cs) (scan alg2 env2 f cs) := by
+  induction f generalizing cs with
+  | zero => cases cs <;> simp only [scan]; exact L.pure .nil; exact L.none
+  | succ f ih =>
+    cases cs with
+    | nil => simp only [scan]; exact L.pure .nil
+    | cons c cs =>
+      simp only [scan]
+      split
+      · cases splitParen cs 0 with
+        | none => exact L.none
+        | some p =>
+          simp only
+          refine L.bind (ih p.1) fun i1 i2 hi => ?_
+          refine L.bind (reduce_rel h hi) fun v w hvw => ?_
+          exact L.map (ih p.2) fun _ _ hr => .cons (.val hvw) hr
+      · split
+        · refine L.bind (henv _) fun v w hvw => ?_
+          exact L.map (ih _) fun _ _ hr => .cons (.val hvw) hr
+        · split
+          · cases numLit (c :: List.takeWhile (fun x => !isStop x) cs) with
+            | none => exact L.none
+            | some me =>
+              simp only [Option.bind_some]
+              refine L.bind (h.num _ _) fun v w hvw => ?_
+              exact L.map (ih _) fun _ _ hr => .cons (.val hvw) hr
+          · split
+            · exact L.map (ih _) fun _ _ hr => .cons (.op _) hr
+            · split
+              · exact L.map (ih _) fun _ _ hr => .cons (.op _) hr
+              · split
+                · exact L.map (ih _) fun _ _ hr => .cons (.op _) hr
+                · split
+                  · exact ih _
+                  · exact L.none
+
+/-- **parametricity of the parser**: related algebras and environments give related results, for
+    every string (well-formed or not). -/
+theorem parse_rel (h : AlgRel L R alg1 alg2) {env1 : List Char → Option V} {env2 : List Char → Option W}
+    (henv : ∀ n, L.rel R (env1 n) (env2 n)) (cs : List Char) :
+    L.rel R (parse alg1 env1 cs) (parse alg2 env2 cs) := by
+  unfold parse
+  exact L.bind (scan_rel h henv _ _) fun _ _ hi => reduce_rel h hi
+
+theorem bind2_rel {f : V → V → Option V} {g : W → W → Option W}
+    (hfg : ∀ a a' b b', R a b → R a' b' → L.rel R (f a a') (g b b'))
+    {o1 o1' : Option V} {o2 o2' : Option W} (h1 : L.rel R o1 o2) (h2 : L.rel R o1' o2') :
+    L.rel R (bind2 f o1 o1') (bind2 g o2 o2') := by
+  have e1 : bind2 f o1 o1' = o1.bind fun a => o1'.bind fun a' => f a a' := by
+    cases o1 <;> cases o1' <;> rfl
+  have e2 : bind2 g o2 o2' = o2.bind fun a => o2'.bind fun a' => g a a' := by
+    cases o2 <;> cases o2' <;> rfl
+  rw [e1, e2]
+  exact L.bind h1 fun a b hab => L.bind h2 fun a' b' hab' => hfg a a' b b' hab hab'
+
+theorem evalAst_rel (h : AlgRel L R alg1 alg2) {env1 : List Char → Option V} {env2 : List Char → Option W}
+    (henv : ∀ n, L.rel R (env1 n) (env2 n)) (e : Expr) :
+    L.rel R (evalAst alg1 env1 e) (evalAst alg2 env2 e) := by
+  induction e with
+  | num l =>
+    simp only [evalAst]
+    cases numLit l with
+    | none => exact L.none
+    | some me => exact h.num _ _
+  | name n => exact henv n
+  | mul a b iha ihb => exact bind2_rel h.mul iha ihb
+  | div a b iha ihb => exact bind2_rel h.div iha ihb
+  | pow a b iha ihb => exact bind2_rel h.pow iha ihb
+
 end Atomman.C09
